@@ -182,6 +182,14 @@ class PeeringScenario(Scenario):
                 last_change = t
             elif k == 'checkpoint':
                 checkpoints.append((t, dict(running), dict(ghosts), last_change, dict(killed_at)))
+            elif k == 'operator-exit' and p.get('how') == 'raised' and self.params.get('fatal_keepalive') == p['op'].split('#')[0] \
+                    and env.counters.get('flaky'):
+                # its keep-alive could not be renewed and the client gave up: an operator that cannot keep its record alive must not go on
+                # (it stops as a whole and leaves the field to the others) - from here on it counts as gone, its record as a dead one
+                ident = p['op'].split('#')[0]
+                running.pop(ident, None)
+                killed_at[ident] = t
+                last_change = t
             elif k == 'operator-exit' and p.get('how') == 'raised':
                 out.append(self.viol(env, 'operator-failed', f"t={t}: operator {p['op']} raised {p.get('error')}", clause='safety'))
         for t, run, gh, changed, killed in checkpoints:
@@ -265,6 +273,8 @@ class PeeringScenario(Scenario):
             for t, k, p in env.obs:
                 if k in ('op-stop', 'op-kill'):
                     ends[p['opid']] = t
+                if k == 'srv' and p.get('fault') and self.params.get('fatal_keepalive') and (p.get('op') or '').split('#')[0] == self.params['fatal_keepalive']:
+                    ends.setdefault(p['op'], t)     # the operator goes down from the moment its keep-alive failed for good
 
             def live_blockers(ident: str, t0: float, t1: float) -> list[str]:
                 found = []
@@ -412,6 +422,13 @@ def run(tier: str, seed: int) -> CheckResult:
             # (a paused operator polls its daemons every second: a day takes some 10^5 loop steps; the idle watch is not re-opened meanwhile)
             hist.append(PeeringScenario(user=user, horizon=lt + 5150.0, history=[list(a) for a in h], spacing=30.0, jitter='min', lifetime=lt,
                                         max_steps=3_000_000, inactivity_timeout=10.0 * lt))
+    # the keep-alive renewal of the ACTIVE operator fails for good (500, no retries configured): it must not stay active with a record
+    # that nobody renews - it stops, and the next one takes over alone
+    for who, others in (('B', ['A']), ('B', ['A', 'C'])):
+        user = [(0.0, 'start', 'A'), (2.0, 'create', 'a'), (10.0, 'start', 'B')] + ([(12.0, 'start', 'C')] if 'C' in others else []) + \
+               [(100.0, 'check', 'soon'), (150.0, 'edit', 'a'), (200.0, 'check', 'settled'), (260.0, 'check', 'final')]
+        hist.append(PeeringScenario(user=user, horizon=265.0, history=[['start', 'B']], spacing=0.0, jitter='min',
+                                    flaky_keepalive=who, fatal_keepalive=who, flaky_after=30.0, error_backoffs=[]))
     reps = [build(h, 100.0, j, timing=True, grid=1.0) for h in ([('start', 'B')], [('start', 'B'), ('kill', 'B')], [('start', 'C')]) for j in ('min', 'max')]
     if tier == 'quick':
         groups = [('histories', hist, 0, 120.0), ('keepalive-latency', reps, 1, 60.0)]
